@@ -67,6 +67,12 @@ CLAIMS = {
         'note': 'Trusts the PAIRS and PUBLIC tables in yrsa/rules/C13.py and the pointer-resolved call graph.',
         'technique': 'static who-may-call/reachability over the call graph + acquire/release pairing paths + structural continuation-guard checks (clang facts)',
     },
+    'C15': {
+        'text': 'Decides, per engine limit, that a branch mentioning the limit raises its documented error (16 rows incl. the six iterator stack tests, lexer identifier/integer tests) and that every narrowing store of a regexp code offset is preceded by its INT16/INT32 range test; that every push on the VM value stack (170 sites in yr_execute_code, 29 in the iterators) is reached only with a proven free slot (margin dataflow: tested slots minus pushes on every path); that every byte stored through lex_buf_ptr++ in the rule lexer is covered by the preceding lex_check_space_ok; that writes into limit-sized arrays are dominated by a bounding comparison (three relational cases are frozen entries whose compile-time side conditions are checked: loop_index++ guarded, vars_count reset, split ids distinct, OP_*_M operand shapes); and that both timeout polls are evaluated on every path from the loop header to the back edge. "Returns within a bounded delay" is timing and is not decided.',
+        'design_ref': 'DESIGN.md section 4, C15 (R15.1-R15.3; R15.4 is covered by C09/C11 who-may-write)',
+        'note': 'Trusts LIMIT_TABLE, BOUNDED_ARRAYS, FROZEN_BOUNDS/FROZEN_INDEX in yrsa/rules/C15.py (each frozen entry states its bounding argument) and the monotone-counter assumption for `== LIMIT` tests.',
+        'technique': 'static limit->error table check + margin dataflow on bounded writes + must-pass-through of timeout polls over clang CFG facts',
+    },
     'C12': {
         'text': 'Decides, for every constant-folding grammar action, that the folder applies the same C operator and the same operand-value guards as the VM handler of the opcode the action emits; that no compiler-layer code reads a run-time object value; that externals are looked up in the scanner-owned table; and that shortcut flags are cleared on every path that uses a string otherwise. These are necessary structural clauses of C12, decided on all sites; verdict equality itself is not decided.',
         'design_ref': 'DESIGN.md section 4, C12 (R12.1-R12.6)',
